@@ -6,7 +6,7 @@ open DnaStr Drv.C10
 
 inductive HOp
   | push (b : Nat) | ext (bs : List Nat) | pb (bytes : List Nat) (n : Nat) | set (i b : Nat) | clear | blank (n : Nat)
-  | fb (bs : List Nat) | fa (cs : List Nat) | fs (cs : List Nat)
+  | fb (bs : List Nat) | fa (cs : List Nat) | fs (cs : List Nat) | own (a b : Nat) (r : Bool)
 
 def hexBytes (s : String) : R (List Nat) :=
   if s == "-" then pure [] else
@@ -27,6 +27,7 @@ def parseOp (t : String) : R HOp :=
   | ["fb", d] => do pure (.fb (← natDigits d))
   | ["fa", h] => do pure (.fa (← hexBytes h))
   | ["fs", h] => do pure (.fs (← hexBytes h))
+  | ["own", a, b, r] => do pure (.own (← nat a) (← nat b) (r == "1"))
   | _ => throw s!"bad-op:{t}"
 
 def baseOf (ch : Nat) : Nat := Gen.baseToBits.getD ch 0
@@ -50,6 +51,7 @@ def runM (d : T) : HOp → Option T
   | .fb bs => fromBytes bs
   | .fa cs => fromBytes (cs.map baseOf)          -- both paths of from_acgt_bytes produce this (C16)
   | .fs cs => fromBytes (cs.map baseOf)          -- from_dna_string on ASCII text
+  | .own a b r => (sliceOf d a b).bind fun s => Slice.toOwned d (if r then s.rc else s)   -- `slice(a, b)[.rc()].to_owned()`
 
 /-- the same operations on a plain vector of bases -/
 def runS (l : List Nat) : HOp → List Nat
@@ -62,6 +64,7 @@ def runS (l : List Nat) : HOp → List Nat
   | .fb bs => bs
   | .fa cs => cs.map KSpec.asciiToBase
   | .fs cs => cs.map KSpec.asciiToBase
+  | .own a b r => let sub := (l.drop a).take (b - a); if r then KSpec.rc sub else sub
 
 def showT (d : T) : String :=
   s!"{d.len}:{if d.storage.isEmpty then "-" else ".".intercalate (d.storage.map fun b => toHex b.toNat)}"
